@@ -279,9 +279,9 @@ def r5_resolve_completed(ctx: Context) -> None:
 
 
 def run(ctx: Context) -> None:
-    r1_one_of_n(ctx)
-    r2_draw_roles(ctx)
-    c02.r3_readiness_predicate(ctx)
-    c02.r4_release_discipline(ctx)
-    r4_resolution_at_submission(ctx)
-    r5_resolve_completed(ctx)
+    ctx.isolate(r1_one_of_n)
+    ctx.isolate(r2_draw_roles)
+    ctx.isolate(c02.r3_readiness_predicate)
+    ctx.isolate(c02.r4_release_discipline)
+    ctx.isolate(r4_resolution_at_submission)
+    ctx.isolate(r5_resolve_completed)
